@@ -6,6 +6,7 @@ package main
 // chains, temporaries holding partial results and De Morgan variants all yield the same table.
 
 import (
+	"fmt"
 	"go/token"
 	"go/types"
 
@@ -148,4 +149,112 @@ func boolEval(f *ssa.Function, res int, assign map[ssa.Value]bool) (bool, bool) 
 		}
 	}
 	return false, false
+}
+
+// isMembershipPredicate: loop-free closure f(p) bool that computes  subject(p) == t  ∨  slices.Contains(tt, subject(p))
+// with t and tt the enclosing function's parameters (captured) and subject(p) the message type of p (the method
+// MessageType() on p, or p's field MessageType). Decided by truth table over the two classes of atoms, so any
+// spelling (early returns, one expression, temporaries) is the same predicate. Returns a description, or "" with the reason.
+func isMembershipPredicate(f *ssa.Function) (string, string) {
+	if f == nil || f.Blocks == nil || len(f.Params) != 1 || len(f.FreeVars) != 2 {
+		return "", "not a closure over (t, tt) with one parameter"
+	}
+	for _, b := range f.Blocks {
+		if inCycle(b) {
+			return "", "has a loop"
+		}
+	}
+	p := ssa.Value(f.Params[0])
+	isSubject := func(v ssa.Value) bool {
+		switch t := v.(type) {
+		case *ssa.Call:
+			sf := t.Call.StaticCallee()
+			return sf != nil && sf.Name() == "MessageType" && len(t.Call.Args) == 1 && t.Call.Args[0] == p
+		case *ssa.UnOp:
+			if fa, ok := t.X.(*ssa.FieldAddr); ok && t.Op == token.MUL && fa.X == p {
+				return derefStruct(fa.X.Type()).Field(fa.Field).Name() == "MessageType"
+			}
+		}
+		return false
+	}
+	freeLoad := func(v ssa.Value) *ssa.FreeVar {
+		if u, ok := v.(*ssa.UnOp); ok && u.Op == token.MUL {
+			if fv, ok := u.X.(*ssa.FreeVar); ok {
+				return fv
+			}
+		}
+		return nil
+	}
+	var single, list *ssa.FreeVar
+	for _, fv := range f.FreeVars {
+		if pt, ok := fv.Type().Underlying().(*types.Pointer); ok {
+			if _, isSlice := pt.Elem().Underlying().(*types.Slice); isSlice {
+				list = fv
+			} else {
+				single = fv
+			}
+		}
+	}
+	if single == nil || list == nil {
+		return "", "captured variables are not (one value, one list)"
+	}
+	var eqAtoms, inAtoms []ssa.Value
+	for _, a := range boolAtomsOf(f) {
+		switch t := a.(type) {
+		case *ssa.BinOp:
+			if t.Op == token.EQL && ((isSubject(t.X) && freeLoad(t.Y) == single) || (isSubject(t.Y) && freeLoad(t.X) == single)) {
+				eqAtoms = append(eqAtoms, a)
+				continue
+			}
+		case *ssa.Call:
+			if sf := t.Call.StaticCallee(); sf != nil && funcKey(originOf(sf)) == "slices.Contains" && len(t.Call.Args) == 2 && freeLoad(t.Call.Args[0]) == list && isSubject(t.Call.Args[1]) {
+				inAtoms = append(inAtoms, a)
+				continue
+			}
+		}
+		return "", "branches on something other than `type == t` and `slices.Contains(tt, type)`"
+	}
+	if len(eqAtoms) == 0 || len(inAtoms) == 0 {
+		return "", "one of the two membership tests is missing"
+	}
+	// nothing but the tests: no stores, no other calls with effects
+	for _, b := range f.Blocks {
+		for _, in := range b.Instrs {
+			switch t := in.(type) {
+			case *ssa.Store, *ssa.MapUpdate, *ssa.Send, *ssa.Go, *ssa.Defer, *ssa.Panic:
+				return "", "has effects"
+			case *ssa.Call:
+				if !isSubject(t) {
+					isIn := false
+					for _, a := range inAtoms {
+						if a == ssa.Value(t) {
+							isIn = true
+						}
+					}
+					if !isIn {
+						return "", "calls " + calleeName(t.Common())
+					}
+				}
+			}
+		}
+	}
+	for _, eq := range []bool{false, true} {
+		for _, in := range []bool{false, true} {
+			as := map[ssa.Value]bool{}
+			for _, a := range eqAtoms {
+				as[a] = eq
+			}
+			for _, a := range inAtoms {
+				as[a] = in
+			}
+			got, ok := boolEval(f, 0, as)
+			if !ok {
+				return "", "not evaluable"
+			}
+			if got != (eq || in) {
+				return "", fmt.Sprintf("yields %v when type==t is %v and type∈tt is %v", got, eq, in)
+			}
+		}
+	}
+	return "type == t || slices.Contains(tt, type) on all 4 rows of the truth table", ""
 }
